@@ -151,10 +151,14 @@ class FormatProgram:
         # Infer operand types that should be inferred
         assert None not in state.operands
         unresolved_operands = cast(list[Sequence[UnresolvedOperand]], state.operands)
-        operand_types = self.resolve_operand_types(state, op_def)
+        try:
+            operand_types = self.resolve_operand_types(state, op_def)
 
-        # Infer result types that should be inferred
-        result_types = self.resolve_result_types(state, op_def)
+            # Infer result types that should be inferred
+            result_types = self.resolve_result_types(state, op_def)
+        except ValueError as err:
+            # The types could not be parsed (e.g. missing punctuation) or inferred
+            parser.raise_error(f"Could not resolve the types of {op_def.name}: {err}")
 
         # Resolve all operands
         operands = tuple(
